@@ -306,3 +306,88 @@ func init() {
 	sweepTable["C18"] = []sweepFn{sweepQualWhitelist, sweepFmtUse, sweepFileDecls}
 	sweepTable["C15"] = []sweepFn{sweepFSWriters, sweepWriteFilesCallers}
 }
+
+// ---------------------------------------------------------------------------
+// object invariants: an object of a type with a `typeinv` is only allocated in a function whose
+// contract establishes the invariant for it (the invariant is assumed wherever such an object is read)
+
+func sweepTypeInvConstructors(prog *Program) Sweep {
+	s := Sweep{Name: "sweep.C03.typeinv-constructors", Detail: "every allocation (&T{...}, T{...}, new(T), var of type T) of a type that carries an object invariant is inside a function whose contract has a postcondition establishing that invariant for its result (xtype.TypeOf for xtype.Type)"}
+	for _, ti := range prog.CS.TypeInvs {
+		key := ti.Pkg + "." + ti.Type
+		for fk, fi := range prog.Funcs {
+			establishes := false
+			if fi.Con != nil {
+				for _, c := range fi.Con.Ensures {
+					if strings.Contains(c.Text, "TypeFieldsOK(result)") || strings.Contains(c.Text, "typeOK(result)") {
+						establishes = true
+					}
+				}
+			}
+			ast.Inspect(fi.Decl, func(n ast.Node) bool {
+				var t types.Type
+				switch n := n.(type) {
+				case *ast.CompositeLit:
+					t = fi.Pkg.TypesInfo.TypeOf(n)
+				case *ast.CallExpr:
+					if id, ok := n.Fun.(*ast.Ident); ok && id.Name == "new" && len(n.Args) == 1 {
+						if _, isB := fi.Pkg.TypesInfo.Uses[id].(*types.Builtin); isB {
+							t = fi.Pkg.TypesInfo.TypeOf(n.Args[0])
+						}
+					}
+				case *ast.ValueSpec:
+					if n.Type != nil {
+						t = fi.Pkg.TypesInfo.TypeOf(n.Type)
+					}
+				}
+				if t == nil {
+					return true
+				}
+				if typeKey(t) == key {
+					s.Sites++
+					if !establishes {
+						s.Offenders = append(s.Offenders, fmt.Sprintf("%s allocates %s at %s without establishing its invariant", fk, key, prog.Fset.Position(n.Pos())))
+					}
+				}
+				return true
+			})
+		}
+	}
+	sort.Strings(s.Offenders)
+	s.Status = "discharged"
+	if len(s.Offenders) > 0 {
+		s.Status = "failed"
+	}
+	if s.Sites == 0 {
+		s.Status = "failed"
+		s.Offenders = append(s.Offenders, "no allocation site found (vacuous)")
+	}
+	return s
+}
+
+func init() {
+	sweepTable["C03"] = append(sweepTable["C03"], sweepTypeInvConstructors)
+	sweepTable["C13"] = append(sweepTable["C13"], sweepTypeInvConstructors)
+}
+
+// errorReturningFuncs: keys of the non-test functions of the module whose last result is an error
+// (error or *builder.Error) and that are not trusted/inline/pure helpers
+func (p *Program) errorReturningFuncs() []string {
+	var out []string
+	for k, fi := range p.Funcs {
+		if fi.Obj == nil || fi.Decl.Body == nil {
+			continue
+		}
+		sig := fi.Obj.Type().(*types.Signature)
+		n := sig.Results().Len()
+		if n == 0 || !isErrorLike(sig.Results().At(n-1).Type()) {
+			continue
+		}
+		if fi.Con != nil && (fi.Con.Trusted || fi.Con.Inline) {
+			continue
+		}
+		out = append(out, k)
+	}
+	sort.Strings(out)
+	return out
+}
